@@ -91,7 +91,7 @@ func idOf(root *simrt.Inode, abs string) (fileID, bool) {
 var profC02 = Profile{
 	MaxProcs: 5, MaxItems: 3, Bufsizes: []int{0, 1, 2}, MaxSlots: 4,
 	Params: true, MultiOut: true, FanIn: true, FanOut: true, NoPort: true, Custom: true,
-	Subdirs: true, Cores: true, TwoSources: true, Zip: true, ParamSrc: true,
+	Subdirs: true, Cores: true, TwoSources: true, Zip: true, ParamSrc: true, EmptyOuts: true,
 }
 
 func init() {
@@ -295,7 +295,7 @@ func keysOf(m map[string][]byte) []string {
 var profC01 = Profile{
 	MaxProcs: 4, MaxItems: 3, Bufsizes: []int{0, 1, 2}, MaxSlots: 4,
 	Params: true, MultiOut: true, FanIn: true, FanOut: true, Custom: true, CustomIdiom: true,
-	Subdirs: true, ParentAbs: true, Extras: true, Cores: true, Zip: true,
+	Subdirs: true, ParentAbs: true, Extras: true, Cores: true, Zip: true, EmptyOuts: true,
 }
 
 // atomicState checks one file-system state against the atomicity property.
@@ -377,15 +377,39 @@ func init() {
 		Rule: "one case = one generated workflow (shell-command and Go-function tasks; output paths plain, in new sub-directories, parent-relative, absolute; extra files) under one tape-chosen schedule, optionally with one injected command failure (exit before / after partial / after complete write, signal at a micro-step, omitted output). For that schedule EVERY distinct crash state (the fs after each journalled fs mutation = every instant at which killing the process group leaves a different durable state) is enumerated and checked: a file at a declared final path implies an exit(0) of that task's command earlier in the journal and complete bytes; every other new regular file is an audit/log/extra file or lies below a _scipipe_tmp* directory. evaluations = incarnations; crash_states_enumerated counts the states checked. distinct = event-log hash; non-trivial = >=2 tasks started and >=1 non-default choice",
 		Run: func(c *Case) Verdict {
 			var w *WF
-			if c.Tape.Choose(simrt.StGen, 6, 0) == 1 {
+			switch c.Tape.Choose(simrt.StGen, 8, 0) {
+			case 1:
 				w = sameNameWF(c)
-			} else {
+			case 2:
+				return splitterAtomicCase(c)
+			default:
 				w = Generate(c.Tape, crashTierProfile(profC01, c.Tier))
 			}
 			ex := Eval(w)
-			var fault *FaultSpec
+			var fault, fault2 *FaultSpec
 			what := ""
-			if c.Tape.Choose(simrt.StFault, 2, 0) == 1 {
+			failProc := ""
+			switch c.Tape.Choose(simrt.StFault, 8, 0) {
+			case 1, 2, 3, 4:
+				// below: failure of one (or two) tape-chosen tasks
+			case 5:
+				// the command of one process is an && list whose middle step fails after
+				// the first step wrote all outputs: no task of that process ever succeeds
+				var procs []*Node
+				for i := range w.Nodes {
+					if n := &w.Nodes[i]; n.Kind == KProc && n.Custom == 0 && len(n.Outs) > 0 {
+						procs = append(procs, n)
+					}
+				}
+				if len(procs) > 0 {
+					pn := procs[c.Tape.Choose(simrt.StFault, len(procs), 0)]
+					pn.Suffix = []string{"&& false && true", "&& test -e no_such_file && true"}[c.Tape.Choose(simrt.StFault, 2, 0)]
+					failProc = pn.Name
+					what = fmt.Sprintf(" with every command of %s failing in the middle of its && list", pn.Name)
+					c.Fault("cmd-list-middle-fails")
+				}
+			}
+			if k := c.Tape.Choose(simrt.StFault, 2, 0); k == 1 && failProc == "" {
 				var cands []*RTask
 				for _, t := range ex.Tasks {
 					if len(t.Outs) > 0 {
@@ -397,10 +421,19 @@ func init() {
 					mode := simrt.FailMode(1 + c.Tape.Choose(simrt.StFault, 5, 0))
 					fault = &FaultSpec{Key: v.Key, Mode: mode, Arg: c.Tape.Choose(simrt.StFault, 6, 0)}
 					what = fmt.Sprintf(" with %s of %s", mode, v.Key)
+					if len(cands) > 1 && c.Tape.Choose(simrt.StFault, 3, 0) == 1 {
+						// a second task fails in the same run (possibly at the same time)
+						v2 := cands[c.Tape.Choose(simrt.StFault, len(cands), 0)]
+						if v2 != v {
+							fault2 = &FaultSpec{Key: v2.Key, Mode: simrt.FailMode(1 + c.Tape.Choose(simrt.StFault, 5, 0)), Arg: c.Tape.Choose(simrt.StFault, 6, 0)}
+							what += fmt.Sprintf(" and %s of %s", fault2.Mode, v2.Key)
+							c.Fault("second-failure")
+						}
+					}
 				}
 			}
 			c.Sample = "crash-state enumeration" + what + ": " + sample(w)
-			inc := RunInc(w, c.Tape, nil, 0, IncOpts{KillAt: -1, Strategy: strategyOf(c.Tape), Trace: c.Trace, Snapshots: true, Fault: fault})
+			inc := RunInc(w, c.Tape, nil, 0, IncOpts{KillAt: -1, Strategy: strategyOf(c.Tape), Trace: c.Trace, Snapshots: true, Fault: fault, Fault2: fault2})
 			c.Absorb(inc)
 			c.Tasks = max(c.Tasks, len(execKeys(inc.Sim.Shell.Trace, "start", 0)))
 			if v, ok := inconclusiveEnd(inc); ok {
@@ -410,6 +443,16 @@ func init() {
 				return Viol("temp-dir-not-private", "", "unfinished work of two tasks is not confined to private temp directories: %s", inc.Sim.InvViol[0])
 			}
 			tr := inc.Sim.Shell.Trace
+			if failProc != "" {
+				// the workload command itself exits 0, the task's command as a whole never does
+				var tr2 []simrt.TraceEvent
+				for _, e := range tr {
+					if !(e.Kind == "exit" && strings.HasPrefix(e.Key, failProc+"|")) {
+						tr2 = append(tr2, e)
+					}
+				}
+				tr = tr2
+			}
 			for _, sn := range inc.Snaps {
 				c.CrashStates++
 				c.Fault("kill@state")
@@ -426,6 +469,64 @@ func init() {
 			}
 			return OK()
 		}})
+}
+
+// splitterAtomicCase: FileSplitter finalizes its parts one by one while it goes
+// on writing the next one. Whatever is visible at a part's final path in any
+// crash state must already be the complete part (= what an uninterrupted run
+// leaves there); unfinished parts stay below the component's temp directory.
+func splitterAtomicCase(c *Case) Verdict {
+	t := c.Tape
+	w := &WF{Name: "wf", Sources: map[string]string{}}
+	nf := 1 + t.Choose(simrt.StGen, 2, 0)
+	src := Node{Name: "src0", Kind: KFileSrc}
+	for i := 0; i < nf; i++ {
+		lines := t.Choose(simrt.StGen, 8, 0)
+		p := fmt.Sprintf("lines%d.txt", i)
+		var b strings.Builder
+		for l := 0; l < lines; l++ {
+			fmt.Fprintf(&b, "file %d line %d %s\n", i, l, strings.Repeat("x", 3*l))
+		}
+		src.Files = append(src.Files, p)
+		w.Sources[p] = b.String()
+	}
+	s := addNode(w, src)
+	sp := addNode(w, Node{Name: "split", Kind: KSplitter, SplitLines: 1 + t.Choose(simrt.StGen, 3, 0),
+		Ins: []InSpec{{Name: "file", From: []Edge{{s, "out"}}}}, Outs: []OutSpec{{Name: "split_file"}}})
+	oneToOne(w, "use", Edge{sp, "split_file"})
+	w.MaxTasks = 1 + t.Choose(simrt.StGen, 3, 0)
+	w.Bufsize = bufsizeOf(t)
+	c.Sample = "crash-state enumeration, FileSplitter: " + sample(w)
+	inc := RunInc(w, c.Tape, nil, 0, IncOpts{KillAt: -1, Strategy: strategyOf(c.Tape), Trace: c.Trace, Snapshots: true})
+	c.Absorb(inc)
+	c.Tasks = max(c.Tasks, len(execKeys(inc.Sim.Shell.Trace, "start", 0)))
+	if v, ok := inconclusiveEnd(inc); ok {
+		return v
+	}
+	if !completedOK(inc) {
+		return Skipped(Viol("no-completion", "", "workflow around FileSplitter did not complete: %s", endDesc(inc)))
+	}
+	final := WorkFiles(inc.Sim.FS.Root)
+	isPart := func(p string) bool {
+		return strings.Contains(p, ".txt.split_") && !strings.HasSuffix(p, ".audit.json") && !strings.Contains(p, ".use.")
+	}
+	for _, sn := range inc.Snaps {
+		c.CrashStates++
+		c.Fault("kill@state")
+		for p, e := range WorkFiles(sn.Root) {
+			if e.Kind != simrt.KFile || underTmp(p) || !isPart(p) {
+				continue
+			}
+			fe, ok := final[p]
+			if !ok {
+				return Viol("stray-file", "splitter", "killed after fs operation #%d: %s is visible but does not exist after an uninterrupted run", sn.JSeq, p)
+			}
+			if string(e.Data) != string(fe.Data) {
+				return Viol("partial-output-visible", "splitter", "killed after fs operation #%d (%s %s): part %s at its final path holds %q, the complete part is %q", sn.JSeq, sn.Entry.Op, sn.Entry.Path, p, clip(e.Data), clip(fe.Data))
+			}
+		}
+	}
+	return OK()
 }
 
 // sameNameWF: tasks of one process whose inputs differ only in the directory
@@ -462,7 +563,7 @@ func sameNameWF(c *Case) *WF {
 var profC03 = Profile{
 	MaxProcs: 3, MaxItems: 2, Bufsizes: []int{0, 1, 2}, MaxSlots: 3,
 	Params: true, MultiOut: true, FanIn: true, FanOut: true,
-	Subdirs: true, Extras: true, Cores: true, Zip: true,
+	Subdirs: true, Extras: true, Cores: true, Zip: true, EmptyOuts: true,
 }
 
 // finalBefore: declared outputs that are already final (present) in a tree.
